@@ -10,6 +10,9 @@ package keep_fields
 // depth + height <= number of buffers every buffer index is in range, the buffer of
 // this depth is empty again on return (so nothing leaks into the next sibling or
 // the next event), and the buffers of other depths keep their lengths.
+// Selection rule: a field of the event is put on the delete list only if it is
+// not a child of the path node, or it is an inner path node under which no
+// configured target exists in the event (the recursive call said so).
 
 //@ func (*Plugin).traverseFieldsTree
 //@   requires 0 <= depth && uf_height(ref(fpNode.children)) >= 0 && depth + uf_height(ref(fpNode.children)) <= len(p.fieldsDepthSlice)
@@ -21,6 +24,9 @@ package keep_fields
 //@   loop 1 invariant forall k :: depth < k && k < len(p.fieldsDepthSlice) ==> len(p.fieldsDepthSlice[k]) == 0
 //@   loop 2 invariant len(p.fieldsDepthSlice) == old(len(p.fieldsDepthSlice)) && depth < len(p.fieldsDepthSlice)
 //@   loop 2 invariant forall k :: depth < k && k < len(p.fieldsDepthSlice) ==> len(p.fieldsDepthSlice[k]) == 0
+//@   ghost leaf bool = false
+//@   setat "if len(childNode.children) == 0 {" leaf := (len(childNode.children) == 0)
+//@   assert at "p.fieldsDepthSlice[depth] = append(p.fieldsDepthSlice[depth], eventField)" !ok || (!leaf && !exists)
 //@   callee maplookup:children(k) (v, ok)
 //@     ensures ok ==> uf_height(ref(v.children)) >= 0 && uf_height(ref(v.children)) < uf_height(ref(fpNode.children))
 //@     ensures ok && len(v.children) != 0 ==> uf_height(ref(v.children)) >= 1
